@@ -59,6 +59,29 @@ pub fn gen_coherence(r: &mut Rng) -> MProgram {
         p.traits.push(MTrait { name: format!("T{}", ti), nparams, marker, ..Default::default() });
         let n = 2 + r.below(4);
         let mut prev: Vec<MImpl> = vec![];
+        if r.chance(30) && nparams == 0 {
+            // a specialization chain of 3-5 impls, each instantiating a parameter of the previous header, declared in
+            // a shuffled order: T, Vec<T>, Vec<Vec<T>>, Vec<Vec<A>> ...
+            let mut chain: Vec<MImpl> = vec![];
+            let mut cur = MTy::Var(0);
+            let len = 3 + r.below(3);
+            for step in 0..len {
+                let mut used = std::collections::BTreeSet::new();
+                cur.vars(&mut used);
+                chain.push(MImpl { nvars: used.len(), head: MPred { tr: format!("T{}", ti), args: vec![cur.clone()] }, positive: true, ..Default::default() });
+                // specialise: replace the (single) variable by Vec<V> / Pair<V, A> or, at the end, by a constant
+                let rep = if step + 2 >= len || used.is_empty() { MTy::nullary(*r.pick(&["A", "B"])) } else if r.chance(70) { MTy::app("Vec", vec![MTy::Var(0)]) } else { MTy::app("Pair", vec![MTy::Var(0), MTy::nullary("A")]) };
+                if used.is_empty() {
+                    break;
+                }
+                cur = cur.subst(&|_| rep.clone());
+            }
+            r.shuffle(&mut chain);
+            for im in chain {
+                prev.push(im.clone());
+                p.impls.push(im);
+            }
+        }
         for _ in 0..n {
             // chains / diamonds: often a specialization or a copy of an earlier header
             let im = if !prev.is_empty() && r.chance(45) {
